@@ -74,7 +74,7 @@ PROPS['C10'] = {
     'theorems': ['Yabgp.C10_update_keeps_session', 'Yabgp.C10_decode_context_stable', 'Yabgp.C10_one_report',
                  'Yabgp.C10_no_escape_send', 'Yabgp.C04_terminates'],
     'genagree': SESSION_GEN,
-    'suites': ['session', 'framing'],
+    'suites': ['session', 'framing', 'hostile'],
     'cannot': SESSION_CANNOT + '; memory exhaustion other than through non-termination; termination of the message '
               'decoders themselves is C11',
 }
@@ -117,13 +117,17 @@ PROPS['C13'] = {
 
 PROPS['C12'] = {
     'module': 'Yabgp.Props.C12',
-    'theorems': ['Yabgp.C12_writes_to_tracked', 'Yabgp.KF_C12_start_while_attempt_pending',
+    'theorems': ['Yabgp.C12_writes_to_tracked', 'Yabgp.C12_at_most_one_calm', 'Yabgp.one_step', 'Yabgp.one_first',
+                 'Yabgp.Core.one_stepOutcome', 'Yabgp.Core.one_frameOutcome', 'Yabgp.heal_step', 'Yabgp.core_step_inv',
+                 'Yabgp.KF_C12_start_while_attempt_pending',
                  'Yabgp.KF_C12_retry_while_attempt_pending', 'Yabgp.KF_C12_idlehold_after_late_connection_lost'],
     'genagree': SESSION_GEN,
     'suites': ['session'],
-    'cannot': SESSION_CANNOT + '; PARTIAL: the theorem proved for all states and events is "every message goes to the tracked '
-              'connection"; "at most one live connection" is false of the pinned code (three recorded known findings, witnessed '
-              'by KF_C12_* theorems) and outside those histories is decided by the BFS/walk oracle on the implementation, not by a theorem',
+    'cannot': SESSION_CANNOT + '; PARTIAL: "every message goes to the tracked connection" is proved for all states and events; '
+              '"at most one live connection, none left open and unreferenced" is proved for every history that avoids the three '
+              'recorded known findings (operator start / connect-retry expiry / automatic start while an attempt is pending: '
+              'CalmRun) and is false of the pinned code in exactly those (KF_C12_* witnesses, replayed on the implementation on '
+              'every run); "eventually closed" is the safety reading (never open and unreferenced), not a liveness theorem',
 }
 
 PROPS['C18'] = {
@@ -181,7 +185,7 @@ PROPS['C11'] = {
                  'Yabgp.C11_prefix_progress', 'Yabgp.C11_prefix_work', 'Yabgp.C11_attr_progress', 'Yabgp.C11_aspath_work',
                  'Yabgp.C11_caps_progress', 'Yabgp.C11_words_work', 'Yabgp.C04_terminates'],
     'genagree': ['Yabgp.GenAgree.attr_codes', 'Yabgp.GenAgree.attr_ids', 'Yabgp.GenAgree.update_errors'],
-    'suites': ['decoders', 'update'],
+    'suites': ['decoders', 'update', 'hostile'],
     'cannot': 'PARTIAL: termination (total Lean definitions without fuel), per-iteration progress, work bounds and never-raises are '
               'proved for the decoders that are modelled: UPDATE framing, IPv4 prefix lists, the standard attributes incl. AS_PATH, '
               'communities, OPEN with all capability loops, NOTIFICATION, KEEPALIVE, ROUTE-REFRESH, and the receive-buffer deframer. '
